@@ -138,10 +138,24 @@ const Type* TypedefNameTypeResolver::resolve(const Type* ty)
             auto unqualTy = qualTy->unqualifiedType();
             auto resolvedTy = resolve(unqualTy);
             if (resolvedTy != unqualTy) {
-                qualTy->resetUnqualifiedType(
-                        resolvedTy->kind() == TypeKind::Qualified
-                            ? resolvedTy->asQualifiedType()->unqualifiedType()
-                            : resolvedTy);
+                if (resolvedTy->kind() == TypeKind::Qualified) {
+                    // The qualifiers of the synonymized type are kept (6.7.3-5).
+                    auto innerQualTy = resolvedTy->asQualifiedType();
+                    auto quals = innerQualTy->qualifiers();
+                    auto qualTy_NC = const_cast<QualifiedType*>(qualTy);
+                    if (quals.hasConst())
+                        qualTy_NC->qualifyWithConst();
+                    if (quals.hasVolatile())
+                        qualTy_NC->qualifyWithVolatile();
+                    if (quals.hasRestrict())
+                        qualTy_NC->qualifyWithRestrict();
+                    if (quals.hasAtomic())
+                        qualTy_NC->qualifyWithAtomic();
+                    qualTy->resetUnqualifiedType(innerQualTy->unqualifiedType());
+                }
+                else {
+                    qualTy->resetUnqualifiedType(resolvedTy);
+                }
             }
             break;
         }
